@@ -68,7 +68,7 @@ def records(wd, tier, diag=False):
         for i, v in dvs.items():
             if i in vs:
                 vs[i] = dict(vs[i], ref=v.get("ref"))
-    return vs, st, by_id, g
+    return vs, st, by_id, g, groups
 
 
 def run(tier: str) -> int:
@@ -76,8 +76,9 @@ def run(tier: str) -> int:
     wd = workdir(PID)
     mc = cf_mc(wd)[0]
     mc2 = idcstar_mc(wd)[0]
-    vs, st, by_id, g = records(wd, tier, diag=tier == "thorough")   # the reference cross-tab is costly: thorough only
+    vs, st, by_id, g, groups = records(wd, tier, diag=tier == "thorough")   # the reference cross-tab is costly: thorough only
     cf.report(out, vs, by_id, skip={"vocabulary"})
+    hist = cf.report_history(out, groups)
     xtab = {}
     for i, v in vs.items():   # diagnostic: where y0 is wrong, does the reference IDC* answer or refuse?
         if v.get("ref") not in (None, "not-computed"):
@@ -89,6 +90,7 @@ def run(tier: str) -> int:
                       "and P(outcomes and conditions)/P(conditions) in functional models with shared noise on all base assignments; "
                       "non-trivial = distinct input with an answer on a graph with a bidirected edge",
                       {"design_mc": [mc, mc2], "y0_outcome_vs_reference_idcstar": xtab})
+    cov.update(hist)
     cov["states"] += mc["distinct"] + mc2["distinct"]
     cov["transitions"] += mc["generated"] + mc2["generated"]
     return out.finish("model_checking", cov, [
